@@ -301,7 +301,12 @@ func (u *Unit) assume(st *State, c string) {
 	u.em.assert(implies(st.pc, c))
 }
 
-func (u *Unit) unitName() string { return u.ctx.funcKey(u.fn) }
+func (u *Unit) unitName() string {
+	if u.fn == nil {
+		return "lockflow"
+	}
+	return u.ctx.funcKey(u.fn)
+}
 
 // exprText returns the source text at the instruction position (for names).
 func (u *Unit) exprText(pos token.Pos, fallback string) string {
